@@ -695,13 +695,19 @@ func ruleCLONE1(c *Ctx) {
 		if is, ok := s.(*ast.IfStmt); ok && strings.Contains(w.Src(is.Cond), "!") && strings.Contains(w.Src(is.Cond), "fullClone") {
 			cow = is
 		}
-		if es, ok := s.(*ast.ExprStmt); ok {
-			if call, ok := es.X.(*ast.CallExpr); ok && isMethodOf(Callee(p, call), p.Types, "Bytecode", "ReplaceBuiltinModule") {
-				writePos = es.Pos()
+	}
+	early := false
+	ast.Inspect(rb.Body, func(n ast.Node) bool {
+		call, ok := n.(*ast.CallExpr)
+		if ok && isMethodOf(Callee(p, call), p.Types, "Bytecode", "ReplaceBuiltinModule") {
+			writePos = call.Pos()
+			if cow == nil || call.Pos() < cow.End() {
+				early = true
 			}
 		}
-	}
-	good := cow != nil && writePos > cow.End()
+		return true
+	})
+	good := cow != nil && writePos > cow.End() && !early
 	if good {
 		clones := containsNode(cow.Body, func(n ast.Node) bool {
 			as, ok := n.(*ast.AssignStmt)
